@@ -46,6 +46,9 @@ def signed_fixed():
 def model_operands(ops):
     lines = []
     for op in ops:
+        if op[0] == "DW_OP_implicit_value":
+            lines.append("%d %d 0" % (C(op[0]), len(op[1])))          # (not modelled: checked against the stored block directly)
+            continue
         a = op[1] if len(op) > 1 else 0
         b = op[2] if len(op) > 2 else 0
         lines.append("%d %d %d" % (C(op[0]), a, b))
@@ -100,6 +103,12 @@ def _check_location(path, die_off, at_num, elements, bad, desc):
             n += 1
             got_off, got_code = int(e["v"][0]["v"]), int(e["v"][1]["v"])
             got_vals = [(int(x["v"]), x["d"]) for x in e["v"][2]["v"]] if all(x["t"] == "c" for x in e["v"][2]["v"]) else "non-constant"
+            if op[0] == "DW_OP_implicit_value":
+                # the operand is the block itself: one sequence of its bytes (the length is no operand of its own)
+                ev = e["v"][2]["v"]
+                blk = [int(y["v"]) for y in ev[0]["v"]] if len(ev) == 1 and ev[0]["t"] == "q" and all(y["t"] == "c" for y in ev[0]["v"]) else None
+                if blk != list(op[1]):
+                    bad("operation %d of %s, implicit_value with a block of %d bytes: `value` gives %s; the block is %s" % (i, desc, len(op[1]), str(blk if blk is not None else ev)[:120], str(list(op[1]))[:120]), dict(case, op="implicit_value/%d" % len(op[1])))
             if got_off != off or got_code != C(op[0]) or int(e["v"][3]["v"]) != i:
                 bad("operation %d of %s is reported as (offset %d, opcode %d, pos %s); stored: (offset %d, %s)" % (i, desc, got_off, got_code, e["v"][3]["v"], off, op[0]), case)
             elif wv is not None and got_vals != wv:
